@@ -22,7 +22,7 @@ theorem TriPixels.nextFuel_colourless (fuel : Nat) (it : TriPixels) (h : it.Colo
     subst h1 h2 h3
     unfold TriPixels.nextFuel
     simp only []
-    cases li.next with
+    cases li.nextLoop with
     | none => left; rfl
     | some r =>
       cases r with
@@ -76,14 +76,15 @@ theorem TriPixels.new_colourless (t : Tri) (style : TriStyle) (h : style.isTrans
     | none => rw [hnx] at hn; cases hn
     | some r =>
       rw [hnx] at hn
-      cases r with
+      obtain ⟨first, l2⟩ := r
+      cases first with
       | none =>
-        simp only [Option.bind_some, pure, Option.some.injEq] at hn
+        simp only [Option.bind_some, pure, Option.getD_none, Option.some.injEq] at hn
         subst hn
         exact ⟨hc PointType.stroke, hf, hs⟩
       | some v =>
-        obtain ⟨⟨l, ty⟩, l2⟩ := v
-        simp only [Option.bind_some, pure, Option.some.injEq] at hn
+        obtain ⟨l, ty⟩ := v
+        simp only [Option.bind_some, pure, Option.getD_some, Option.some.injEq] at hn
         subst hn
         exact ⟨hc ty, hf, hs⟩
 
@@ -91,9 +92,9 @@ theorem TriPixels.new_colourless (t : Tri) (style : TriStyle) (h : style.isTrans
 theorem triPixels_transparent (t : Tri) (style : TriStyle) (h : style.isTransparent = true)
     (ps : List (Pt × Nat)) (hps : triPixels t style = some ps) : ps = [] := by
   unfold triPixels at hps
-  cases hb : triStyledBoundingBox t style with
+  cases hb : triPixelFuel t style with
   | none => rw [hb] at hps; cases hps
-  | some bb =>
+  | some fuel =>
     rw [hb] at hps
     simp only [Option.bind_eq_bind, Option.bind_some] at hps
     cases hn : TriPixels.new t style with
